@@ -104,8 +104,15 @@ func (h *Hub) HandleShipHandshakeStateUpdate(ski string, state model.ShipState) 
 		// always send a delayed update, as the processing of the new state has to be done
 		// and the SHIP message has to be received by the other service before
 		// acting upon the new state is safe
+		notified := h.pairingNotificationCount(ski)
 		go func() {
 			<-time.After(time.Millisecond * 500)
+
+			// RegisterRemoteSKI, UnregisterRemoteSKI and CancelPairingWithSKI report their
+			// state at once: this older state must not follow a newer one
+			if h.pairingNotificationCount(ski) != notified {
+				return
+			}
 			h.hubReader.ServicePairingDetailUpdate(ski, pairingDetail)
 		}()
 	}
@@ -114,4 +121,24 @@ func (h *Hub) HandleShipHandshakeStateUpdate(ski string, state model.ShipState) 
 // report an approved handshake by a remote device
 func (h *Hub) SetupRemoteDevice(ski string, writeI api.ShipConnectionDataWriterInterface) api.ShipConnectionDataReaderInterface {
 	return h.hubReader.SetupRemoteDevice(ski, writeI)
+}
+
+// the number of pairing state notifications sent synchronously for a SKI
+func (h *Hub) pairingNotificationCount(ski string) uint64 {
+	h.muxPairingNotify.Lock()
+	defer h.muxPairingNotify.Unlock()
+
+	return h.pairingNotifications[ski]
+}
+
+// report a pairing state synchronously, pending delayed notifications of older states are dropped
+func (h *Hub) notifyPairingDetail(ski string, detail *api.ConnectionStateDetail) {
+	h.muxPairingNotify.Lock()
+	if h.pairingNotifications == nil {
+		h.pairingNotifications = make(map[string]uint64)
+	}
+	h.pairingNotifications[ski]++
+	h.muxPairingNotify.Unlock()
+
+	h.hubReader.ServicePairingDetailUpdate(ski, detail)
 }
